@@ -269,7 +269,20 @@ class C24(Property):
         return None
 
     def signature(self, case, impl, failure):
-        return {'what': failure.get('what'), 'linear': case['cfg']['linear']}
+        sig = {'what': failure.get('what'), 'linear': case['cfg']['linear'],
+               'mode': case['cfg']['mode'],
+               'sub_krylov': case['cfg'].get('sub_linear') == 'krylov'}
+        # which side is wrong?  (the relevance-disabled forward solve through a Krylov sub-group is a
+        # recorded defect, see known_findings.d/C02.json)
+        try:
+            md, voi = self._md(case)
+            ex = [[float(x) for x in r] for r in gm.exact_totals_linsolve(md, voi)]
+            tol = max(self._tol(case), 1e-6)
+            sig['off_wrong_on_right'] = bool(self._close(impl['on']['J'], ex, tol) and
+                                             not self._close(impl['off']['J'], ex, tol))
+        except Exception:
+            sig['off_wrong_on_right'] = False
+        return sig
 
     def nontrivial(self, case, impl):
         rel = impl.get('on', {}).get('relevant', {})
